@@ -188,6 +188,15 @@ Proof. exact view_xattr. Qed.
 (* ---- the conversion fixpoint (sqfs2tar writes, the tar iterator reads,
         tar2sqfs stores: [convert]) ---- *)
 
+(* SCOPE of conv_fixpoint / conv_second_round / xattr_order_may_settle (audit, session 3): here an "image" is only a
+   LIST of entries and [convert] = reimage_all [] (read_archive (write_archive es)) maps it entry by entry, keeping the
+   list order; entry_ok / img_shape / settled say nothing about order, distinct names or parent directories (a list
+   with the same name twice, a child in front of its directory and unsorted names meets them: it_weird_refused in
+   section "ImgTar" below).  They are theorems about the archive codec and the per-entry transformation.  What the
+   tree building (fstree_add_generic: duplicates refused, parents created implicitly, children sorted),
+   fstree_post_process, the serializer, the reader and sqfs2tar's sorted walk with its hard link filter do is in the
+   theorems of section "ImgTar" at the end of this file: image_view_of_adds, reimage_is_theorem,
+   conv_fixpoint_composed, conv_second_round_composed. *)
 (* an image whose entries have the shape tar2sqfs gives them (img_shape:
    canonical names, directories with sqfs2tar's trailing '/', 32-bit time
    stamps, links with mode 0777, nothing tar cannot express; settled: the
@@ -412,3 +421,319 @@ Example ex_retarget_3 : retarget [114] [47;101;116;99] = [47;101;116;99].
 Proof. vm_compute. reflexivity. Qed.
 Example ex_retarget_old : retarget_old [114] [46;47;97;47;46;46;47;98] = [97;47;97;47;46;46;47;98].
 Proof. vm_compute. reflexivity. Qed.
+
+(* ============================================================================================================
+   ImgTar (session 3) — tar2sqfs -> image -> sqfs2tar with the tree in between
+
+   coq/ImgTar/Model.v models process_tarball's per-entry step (pt_op_of: mtime clamp, --root-becomes strip and
+   retarget, -k, the root entry = set_root_attribs, everything else one fstree_add_generic call with the entry's
+   type / mode / uid / gid / mtime / device number and the link target as extra string) and what sqfs2tar's iterator
+   stack delivers for a reader view (s2t_entries: walk order = the flattened view, root omitted, trailing '/' on
+   directories, sqfs_hard_link_filter keyed by inode: the second and later paths of an inode that is not a directory
+   become hard link records to the first path; sockets pass and are refused later by write_tar_header).  In between
+   sit coq/C11 (fs_add, post_process), coq/ImgPost (to_img) and coq/Img (serialize_fstree, read_tree).
+   ============================================================================================================ *)
+From SqfsV Require C03.Common C01.Res C01.InodeModel Img.TreeModel C11.StrOrder C11.FstreeModel C11.PostModel.
+From SqfsV Require ImgPost.Bridge ImgPost.InputOk ImgPost.PathsModel ImgPost.PathsProofs.
+From SqfsV Require Import ImgTar.Model ImgTar.AddLookup ImgTar.Semantics ImgTar.Reimage ImgTar.Compose ImgTar.ViewProofs
+  ImgTar.Example.
+From Coq Require Import Sorted.
+
+(* ---- (audit) what archive_rt says about one entry: every field of [view t], not only the xattr list ---- *)
+Theorem archive_rt_fields : forall t,
+  let e := te_e t in let v := view t in
+  e_hardlink (te_e v) = e_hardlink e /\ e_uid (te_e v) = e_uid e /\ e_gid (te_e v) = e_gid e /\
+  e_mtime (te_e v) = e_mtime e /\ e_name (te_e v) = canon_name (e_name e) /\
+  (e_hardlink e = true \/ ftype (e_mode e) = S_IFLNK -> te_target v = te_target t) /\
+  (is_reg (e_mode e) && negb (e_hardlink e) = true -> e_size (te_e v) = e_size e) /\
+  (is_dev (e_mode e) = true -> e_hardlink e = false -> e_rdev (te_e v) = e_rdev e).
+Proof. exact view_facts. Qed.
+Print Assumptions archive_rt_fields.
+
+(* ... and the mode: links (hard and symbolic) come back as S_IFLNK | 0777, everything else unchanged *)
+Theorem archive_rt_mode : forall t,
+  e_mode (te_e t) < 65536 ->
+  e_mode (te_e (view t)) =
+  if e_hardlink (te_e t) || (ftype (e_mode (te_e t)) =? S_IFLNK) then S_IFLNK + 511 else e_mode (te_e t).
+Proof. exact view_mode_gen. Qed.
+Print Assumptions archive_rt_mode.
+
+(* (audit) the hypothesis of retarget_keeps_foreign_targets is met by root "r" and the targets "../x" and "/etc" *)
+Example ex_retarget_foreign :
+  (forall r, canon_result [46;46;47;120] <> Some ([114] ++ 47 :: r)) /\
+  (forall r, canon_result [47;101;116;99] <> Some ([114] ++ 47 :: r)).
+Proof. split; intro r; vm_compute; congruence. Qed.
+
+(* ---- process_tarball: without a root entry the run is exactly the list of its fstree_add_generic calls ---- *)
+Theorem process_tarball_is_adds : forall o d vs,
+  forallb no_root_op (pt_ops o d vs) = true ->
+  tar2sqfs_tree o d vs = Bridge.run_adds d (FstreeModel.fs_init d) (adds_of_entries o d vs).
+Proof. exact tar2sqfs_tree_adds. Qed.
+Print Assumptions process_tarball_is_adds.
+
+(* ---- what a list of successful adds builds, without the tree (any order; implicit directories; fill-in of an
+        implicit directory by its own later add; hard links before / after / through other hard links).
+   ops_okb: every path below the root, no path twice, hard link entries have the link type, directory time stamps
+   inside 32 bit (process_tarball clamps).  links_resolveb: every hard link add leads, through the targets of further
+   hard link adds, to something that is not one (decidable; fstree_resolve_hard_links refuses the rest).
+   For every [fl] that [denotes] the tree (ImgPost: the reader's flattened view before numbering):
+   - its paths are strictly sorted in directory order (a directory in front of its contents, siblings by strcmp),
+   - they are exactly the root, the added paths and their prefixes,
+   - each carries the node [spec_resolve] names and the attributes [spec_pview] of that node: those of its add, the
+     defaults for a directory nobody added. ---- *)
+Theorem adds_denote : forall d ops fs fb xa fl,
+  ops_okb ops = true -> links_resolveb ops = true ->
+  Bridge.run_adds d (FstreeModel.fs_init d) ops = Some fs ->
+  PathsModel.denotes fb xa (FstreeModel.fs_root fs) fl ->
+  StronglySorted path_lt (map fst3 fl) /\
+  (forall p, In p (map fst3 fl) <-> p = [] \/ in_closure p ops) /\
+  Forall (fun x => let '(p, v, id) := x in
+                   spec_resolve (S (length ops)) ops p = Some id /\ v = spec_pview fb xa d ops id) fl.
+Proof. exact adds_denote_l. Qed.
+Print Assumptions adds_denote.
+
+(* ... end to end through sqfs_serialize_fstree and the reader (ImgPost.pack_paths_roundtrip): what a reader sees of
+   the image tar2sqfs writes for ANY archive it accepts.  [compress] / [uncompress]: any pair meeting the metadata
+   compressor contract; input_okb / attached_okb / trace_fits: the decidable bounds of pack_paths_roundtrip. *)
+Theorem image_view_of_adds : forall compress uncompress,
+  (forall b c, compress b = Common.CData c -> Common.lenN c <= Common.lenN b /\ uncompress c = Some b) ->
+  forall limit, limit <= 65536 ->
+  forall bs d ops fs pp fb xa img,
+  ops_okb ops = true -> links_resolveb ops = true ->
+  InputOk.input_okb bs d ops = true ->
+  Bridge.run_adds d (FstreeModel.fs_init d) ops = Some fs ->
+  PostModel.post_process fs = PostModel.POk pp ->
+  InputOk.attached_okb bs fb xa pp = true ->
+  TreeModel.serialize_fstree compress limit (Bridge.to_img fb xa pp) = Res.Ok img ->
+  TreeModel.trace_fits img = true ->
+  exists lt fl,
+    TreeModel.read_tree uncompress bs (TreeModel.si_itbl img) (TreeModel.si_dtbl img) (TreeModel.si_ids img)
+                        (length (PostModel.pp_inodes pp)) (TreeModel.si_root img) = Some lt /\
+    PathsModel.flat_lt [] lt = map (PathsProofs.number (PostModel.pp_inodes pp)) fl /\
+    StronglySorted path_lt (map fst3 fl) /\
+    (forall p, In p (map fst3 fl) <-> p = [] \/ in_closure p ops) /\
+    Forall (fun x => let '(p, v, id) := x in
+                     spec_resolve (S (length ops)) ops p = Some id /\ v = spec_pview fb xa d ops id) fl /\
+    (forall x y, In x fl -> In y fl ->
+       Bridge.ino_of (PostModel.pp_inodes pp) (snd x) = Bridge.ino_of (PostModel.pp_inodes pp) (snd y) -> snd x = snd y).
+Proof. exact image_view_of_adds_l. Qed.
+Print Assumptions image_view_of_adds.
+
+(* ---- reimage is a theorem.  For an archive in the shape sqfs2tar emits (tree_shapeb, decidable: canonical names
+   below the root; strictly sorted in directory order, hence no name twice; every directory above an entry listed in
+   front of it; a hard link record names an EARLIER entry that is neither a hard link record nor a directory and
+   repeats that inode's owner and time stamp; symbolic links with mode 0777; nothing tar cannot express) the entries
+   sqfs2tar's iterator stack delivers for the image tar2sqfs builds are C04's [reimage_all] of the archive, up to the
+   fields write_tar_header does not read ([meq]: size of non-files, device number of non-devices, target of
+   non-links).  files_attached: the block processor left every regular file with the announced size (C08). ---- *)
+Theorem reimage_is_theorem : forall compress uncompress,
+  (forall b c, compress b = Common.CData c -> Common.lenN c <= Common.lenN b /\ uncompress c = Some b) ->
+  forall limit, limit <= 65536 ->
+  forall bs d vs fs pp fb xa img tbl,
+  tree_shapeb vs = true -> files_attached fb vs ->
+  InputOk.input_okb bs d (adds_of_entries opts0 d vs) = true ->
+  tar2sqfs_tree opts0 d vs = Some fs ->
+  PostModel.post_process fs = PostModel.POk pp ->
+  InputOk.attached_okb bs fb xa pp = true ->
+  TreeModel.serialize_fstree compress limit (Bridge.to_img fb xa pp) = Res.Ok img ->
+  TreeModel.trace_fits img = true ->
+  exists lt out,
+    TreeModel.read_tree uncompress bs (TreeModel.si_itbl img) (TreeModel.si_dtbl img) (TreeModel.si_ids img)
+                        (length (PostModel.pp_inodes pp)) (TreeModel.si_root img) = Some lt /\
+    sqfs2tar_entries false (PathsModel.flat_lt [] lt) = Some out /\
+    Forall2 meq out (reimage_all tbl vs).
+Proof. exact reimage_is_theorem_l. Qed.
+Print Assumptions reimage_is_theorem.
+
+(* the same at the level of lib/fstree alone (no serializer): any list [fl] that denotes the tree, numbered by any
+   array that tells the denoted nodes apart *)
+Theorem reimage_meta : forall d vs fs fb xa fl arr tbl,
+  tree_shapeb vs = true ->
+  Bridge.run_adds d (FstreeModel.fs_init d) (adds_of_entries opts0 d vs) = Some fs ->
+  PathsModel.denotes fb xa (FstreeModel.fs_root fs) fl ->
+  files_attached fb vs ->
+  (forall x y, In x fl -> In y fl -> Bridge.ino_of arr (snd x) = Bridge.ino_of arr (snd y) -> snd x = snd y) ->
+  exists out, sqfs2tar_entries false (map (PathsProofs.number arr) fl) = Some out /\
+              Forall2 meq out (reimage_all tbl vs).
+Proof. exact reimage_meta_l. Qed.
+Print Assumptions reimage_meta.
+
+(* ---- conv_fixpoint with that hypothesis discharged: sqfs2tar's archive of the image listing [es], read by the tar
+   iterator, packed by process_tarball + lib/fstree + the serializer, read back and walked by sqfs2tar's iterators,
+   is written as the same archive, byte for byte.  Names, order, types, modes, owners, time stamps, link targets,
+   device numbers and the hard link structure of the second archive are computed by the composed models; the xattr
+   list and the file contents of every entry are those of [reimage_all] (xattr writer order, data as read) — that
+   part is still an assumption ([attach_all]). ---- *)
+Theorem conv_fixpoint_composed : forall compress uncompress,
+  (forall b c, compress b = Common.CData c -> Common.lenN c <= Common.lenN b /\ uncompress c = Some b) ->
+  forall limit, limit <= 65536 ->
+  forall bs d es fs pp fb xa img,
+  Forall entry_ok es -> Forall img_shape es -> settled [] es ->
+  let vs := views es in
+  tree_shapeb vs = true -> files_attached fb vs ->
+  InputOk.input_okb bs d (adds_of_entries opts0 d vs) = true ->
+  tar2sqfs_tree opts0 d vs = Some fs ->
+  PostModel.post_process fs = PostModel.POk pp ->
+  InputOk.attached_okb bs fb xa pp = true ->
+  TreeModel.serialize_fstree compress limit (Bridge.to_img fb xa pp) = Res.Ok img ->
+  TreeModel.trace_fits img = true ->
+  read_archive (write_archive es) = RA_Ok vs /\
+  exists lt out,
+    TreeModel.read_tree uncompress bs (TreeModel.si_itbl img) (TreeModel.si_dtbl img) (TreeModel.si_ids img)
+                        (length (PostModel.pp_inodes pp)) (TreeModel.si_root img) = Some lt /\
+    sqfs2tar_entries false (PathsModel.flat_lt [] lt) = Some out /\
+    write_archive (attach_all out (reimage_all [] vs)) = write_archive es.
+Proof. exact conv_fixpoint_composed_l. Qed.
+Print Assumptions conv_fixpoint_composed.
+
+(* ... and from any listing after one round (names shorter than TAR_MAX_PATH_LEN): round one establishes entry_ok,
+   img_shape and settled (round_one); if its result is in directory order with hard links behind their first name —
+   what sqfs2tar's walk produces, see it_rough_out for an archive that is NOT — round two reproduces it *)
+Theorem conv_second_round_composed : forall compress uncompress,
+  (forall b c, compress b = Common.CData c -> Common.lenN c <= Common.lenN b /\ uncompress c = Some b) ->
+  forall limit, limit <= 65536 ->
+  forall bs d es fs pp fb xa img,
+  Forall entry_ok es -> Forall short_name es ->
+  let es1 := reimage_all [] (views es) in
+  let vs := views es1 in
+  tree_shapeb vs = true -> files_attached fb vs ->
+  InputOk.input_okb bs d (adds_of_entries opts0 d vs) = true ->
+  tar2sqfs_tree opts0 d vs = Some fs ->
+  PostModel.post_process fs = PostModel.POk pp ->
+  InputOk.attached_okb bs fb xa pp = true ->
+  TreeModel.serialize_fstree compress limit (Bridge.to_img fb xa pp) = Res.Ok img ->
+  TreeModel.trace_fits img = true ->
+  convert es = RA_Ok es1 /\
+  read_archive (write_archive es1) = RA_Ok vs /\
+  exists lt out,
+    TreeModel.read_tree uncompress bs (TreeModel.si_itbl img) (TreeModel.si_dtbl img) (TreeModel.si_ids img)
+                        (length (PostModel.pp_inodes pp)) (TreeModel.si_root img) = Some lt /\
+    sqfs2tar_entries false (PathsModel.flat_lt [] lt) = Some out /\
+    write_archive (attach_all out (reimage_all [] vs)) = write_archive es1.
+Proof. exact conv_second_round_composed_l. Qed.
+Print Assumptions conv_second_round_composed.
+
+(* ---- the function the tie runs.  props/C04/imgtar.py compares the real tar2sqfs | sqfs2tar with
+   [tar_roundtrip_entries] (extracted): process_tarball model, coq/C11 fs_add + post_process, the view computed on the
+   post-processed tree, the walk.  It is an instance of the theorems above — no bound on the input and no condition on
+   the file inodes is needed on this route (the tree is not serialized): the view is the numbering of THE list that
+   denotes the tree, and the numbering tells the denoted nodes apart. ---- *)
+Theorem tar_roundtrip_view : forall o d nl vs fs pp,
+  let ops := adds_of_entries o d vs in
+  let fb := fb_of (sizes_of o d vs) in
+  forallb no_root_op (pt_ops o d vs) = true -> ops_okb ops = true -> links_resolveb ops = true ->
+  tar2sqfs_tree o d vs = Some fs -> PostModel.post_process fs = PostModel.POk pp ->
+  exists fl,
+    tar_roundtrip_entries o d nl vs = sqfs2tar_entries nl (map (PathsProofs.number (PostModel.pp_inodes pp)) fl) /\
+    StronglySorted path_lt (map fst3 fl) /\
+    (forall p, In p (map fst3 fl) <-> p = [] \/ in_closure p ops) /\
+    Forall (fun x => let '(p, v, id) := x in
+                     spec_resolve (S (length ops)) ops p = Some id /\
+                     v = spec_pview fb (fun _ => 4294967295) d ops id) fl /\
+    (forall x y, In x fl -> In y fl ->
+       Bridge.ino_of (PostModel.pp_inodes pp) (snd x) = Bridge.ino_of (PostModel.pp_inodes pp) (snd y) -> snd x = snd y).
+Proof. exact tar_roundtrip_view_l. Qed.
+Print Assumptions tar_roundtrip_view.
+
+Theorem tar_roundtrip_reimage : forall d vs tbl,
+  tree_shapeb vs = true ->
+  files_attached (fb_of (sizes_of opts0 d vs)) vs ->
+  forall fs pp, tar2sqfs_tree opts0 d vs = Some fs -> PostModel.post_process fs = PostModel.POk pp ->
+  exists out, tar_roundtrip_entries opts0 d false vs = Some out /\ Forall2 meq out (reimage_all tbl vs).
+Proof. exact tar_roundtrip_reimage_l. Qed.
+Print Assumptions tar_roundtrip_reimage.
+
+(* ---- non-vacuity ---- *)
+(* it_es = the listing  d/  d/f  d/h => d/f  d/l -> f  dev  z => d/l  (a second name of a regular file and a second
+   name of a SYMBOLIC LINK): every hypothesis of conv_fixpoint_composed holds (the pipeline ones by computation with
+   the zero-run-length metadata compressor of the tie) ... *)
+Example ex_composed_hyps :
+  Forall entry_ok it_es /\ Forall img_shape it_es /\ settled [] it_es /\
+  tree_shapeb it_vs = true /\ files_attached it_fb it_vs /\
+  match it_run with
+  | Some (inp, att, fits, _, _) => inp = true /\ att = true /\ fits = true
+  | None => False
+  end.
+Proof. exact it_hyps. Qed.
+(* ... and the conclusion computes: six entries in directory order, both second names as hard link records, and the
+   archive sqfs2tar writes is the one it started from *)
+Example ex_composed_concl :
+  match it_run with
+  | Some (_, _, _, lt, _) =>
+      match sqfs2tar_entries false (PathsModel.flat_lt [] lt) with
+      | Some out =>
+          map (fun m => (e_name (fst m), e_hardlink (fst m), snd m)) out =
+            [ ([100; 47], false, None); ([100; 47; 102], false, None); ([100; 47; 104], true, Some [100; 47; 102]);
+              ([100; 47; 108], false, Some [102]); ([100; 101; 118], false, None); ([122], true, Some [100; 47; 108]) ] /\
+          write_archive (attach_all out (reimage_all [] it_vs)) = write_archive it_es
+      | None => False
+      end
+  | None => False
+  end.
+Proof. exact it_concl. Qed.
+
+(* the auditor's list (same name twice, child before parent, unsorted) satisfies the hypotheses of the OLD
+   conv_fixpoint and is a "fixpoint" of [convert]; the shape test of the new theorems refuses it and the model of
+   tar2sqfs fails on it (the second z: EEXIST) *)
+Example ex_weird_refused :
+  forallb entry_okb it_weird && forallb img_shapeb it_weird && settledb [] it_weird = true /\
+  convert it_weird = RA_Ok it_weird /\
+  tree_shapeb (views it_weird) = false /\
+  tar2sqfs_tree opts0 it_d (views it_weird) = None.
+Proof. exact it_weird_refused. Qed.
+
+(* a first-round archive (d/sub/f without entries for d and d/sub, a hard link chain in front of its target, d/ after
+   its contents with mtime 2^32+5, a hard link to a symbolic link whose record carries another owner): the hypotheses
+   of adds_denote / image_view_of_adds hold, it is not in sqfs2tar's shape ... *)
+Example ex_rough_archive_hyps :
+  forallb no_root_op (pt_ops opts0 it_d it_rough) = true /\ ops_okb it_rough_ops = true /\
+  links_resolveb it_rough_ops = true /\ InputOk.input_okb 4096 it_d it_rough_ops = true /\
+  tree_shapeb it_rough = false /\
+  match tar2sqfs_tree opts0 it_d it_rough with
+  | Some fs => match PostModel.post_process fs with PostModel.POk _ => True | _ => False end
+  | None => False
+  end.
+Proof. exact it_rough_hyps. Qed.
+(* ... and what sqfs2tar delivers for its image is NOT [reimage_all] of it: directory order, d/ and d/sub/ listed, the
+   first name in directory order carries the inode (a, b) and the others (d/l2, d/sub/f, s) are records pointing at
+   it, the record repeats the inode's owner.  [reimage] describes the rounds from sqfs2tar's own output on. *)
+Example reimage_first_round_refuted :
+  match tar_roundtrip_entries opts0 it_d false it_rough with
+  | Some out =>
+      map (fun m => (e_name (fst m), e_hardlink (fst m), e_uid (fst m), snd m)) out =
+        [ ([66; 47], false, 0, None);
+          ([97], false, 1000, None);
+          ([98], false, 5, Some [116; 103; 116]);
+          ([100; 47], false, 1, None);
+          ([100; 47; 108; 50], true, 1000, Some [97]);
+          ([100; 47; 115; 117; 98; 47], false, 0, None);
+          ([100; 47; 115; 117; 98; 47; 102], true, 1000, Some [97]);
+          ([115], true, 5, Some [98]) ] /\
+      map (fun m => e_name (fst m)) out <> map (fun t => e_name (te_e t)) (reimage_all [] it_rough)
+  | None => False
+  end.
+Proof. exact it_rough_out. Qed.
+
+(* FINDING F25 (image side): an image in which a SOCKET has two names.  The hard link filter turns the second name
+   into a hard link record to the first, write_tar_header refuses the first (tar cannot express sockets) and
+   sqfs2tar skips it: the archive holds a hard link record whose target it does not contain.  The tar reader accepts
+   it, process_tarball adds it, fstree_post_process fails ("Resolving hard link ... No such file or directory");
+   reproduced with gensquashfs | sqfs2tar | tar2sqfs and with GNU tar -x (props/C04/NOTES.md). *)
+Example sqfs2tar_socket_link_refuted :
+  match sqfs2tar_entries false it_sock_view with
+  | Some out =>
+      let es := map (fun m => mkte (fst m) (snd m) [] []) out in
+      match read_archive (write_archive es) with
+      | RA_Ok vs =>
+          map (fun t => (e_name (te_e t), e_hardlink (te_e t), te_target t)) vs =
+            [([102], false, None); ([116], true, Some [115])] /\
+          tar2sqfs_tree opts0 it_d vs <> None /\
+          match tar2sqfs_tree opts0 it_d vs with
+          | Some fs => PostModel.post_process fs = PostModel.PErr
+          | None => False
+          end
+      | _ => False
+      end
+  | None => False
+  end.
+Proof. exact it_sock_dangling. Qed.
